@@ -209,6 +209,9 @@ pub struct REnt {
     pub order: Vec<ROrd>,
     pub first: u64,
     pub skip: u64,
+    /// names of the variables carrying first / skip, when passed as variables
+    pub first_var: Option<String>,
+    pub skip_var: Option<String>,
     pub paging: Option<RPaging>,
     pub nullable: Vec<String>,
 }
@@ -267,10 +270,16 @@ impl REnt {
             params.push(format!("order_by({})", keys.join(", ")));
         }
         if self.first > 0 {
-            params.push(format!("first {}", self.first));
+            match &self.first_var {
+                Some(v) => params.push(format!("first ${}", v)),
+                None => params.push(format!("first {}", self.first)),
+            }
         }
         if self.skip > 0 {
-            params.push(format!("skip {}", self.skip));
+            match &self.skip_var {
+                Some(v) => params.push(format!("skip ${}", v)),
+                None => params.push(format!("skip {}", self.skip)),
+            }
         }
         if let Some(p) = &self.paging {
             let vals: Vec<String> = p.values.iter().map(|v| v.text()).collect();
@@ -346,6 +355,12 @@ pub enum VarKind {
 }
 
 fn collect_vars(e: &REnt, out: &mut Vec<(String, Lit, VarKind)>) {
+    if let (Some(v), true) = (&e.first_var, e.first > 0) {
+        out.push((v.clone(), Lit::Int(e.first as i64), VarKind::Plain));
+    }
+    if let (Some(v), true) = (&e.skip_var, e.skip > 0) {
+        out.push((v.clone(), Lit::Int(e.skip as i64), VarKind::Plain));
+    }
     for f in &e.filters {
         if let FVal::Var(n, l) = &f.value {
             out.push((n.clone(), l.clone(), VarKind::Plain));
